@@ -3,6 +3,8 @@ CONSTANTS MaxRuns = 3 MaxTouch = 99
   Scens <- ScenPlain1
   Settings <- SettingsAll
   CreatedSetsChanged = TRUE
+  Reuses = {FALSE, TRUE}
+  AutoReload = TRUE
   KeepHistory = FALSE
 VIEW view
 INVARIANT TypeOK
